@@ -1,11 +1,11 @@
 """Rule instances on the two work-steal queues (shared by C01, C03, C04, C05, C06)."""
 from analysis.facts import norm
 from analysis.cfg import Cfg
-from analysis.flow import DefUse, ReachingDefs, backward, find_calls, callee_is, callee_ends, op_local, op_const, switch_info
+from analysis.flow import DefUse, ReachingDefs, backward, find_calls, callee_is, callee_ends, op_local, op_const, switch_info, value_root
 from analysis.linear import Linear
 from analysis.atomics import AtomicModel, is_atomic_method, receiver_key
-from analysis.table import describe_val
-from rules.common import need
+from analysis.table import describe_val, PathWalker
+from rules.common import need, unit, inl
 
 OWS = "common::ordered_work_steal::OrderedWorkStealQueue"
 OLQ = "common::ordered_work_steal::OrderedLocalQueue"
@@ -171,7 +171,7 @@ def _iter_facts(b):
 def ascending_rule(run, f, rid):
     run.rule(rid, "pops scan the priority map in ascending key order and return at the first bucket that yields an item", floor=2, template="T5/T1")
     for fn, inner in ((OLQ + "::pop_local", "st3::fifo::Worker::pop"), (OWS + "::pop", "crossbeam_deque::Injector::steal")):
-        b = need(run, rid, f, fn)
+        b = unit(run, rid, f, fn)     # a scan written as iter().find_map(..) is the same loop
         if b is None:
             continue
         cfg = Cfg(b)
@@ -197,7 +197,7 @@ def ascending_rule(run, f, rid):
             for x in sorted(cfg.reachable(cfg.after(ib))):
                 if b.blocks[x]["term"]["k"] == "switch":
                     si = switch_info(b, du, x)
-                    if si["kind"] == "discr" and si["place"]["l"] == itc["dest"]["l"]:
+                    if si["kind"] == "discr" and not si["place"]["proj"] and value_root(du, si["place"]["l"]) == value_root(du, itc["dest"]["l"]):
                         arm = si["arms"].get("Some") or si["arms"].get("Success")
                         break
             if arm is None:
@@ -544,7 +544,7 @@ def sweep_rule(run, f, rid):
 def len_reset_rule(run, f, rid):
     """After my fix for F2: an owner that finds all its workers empty must forget a stale count (siblings steal without updating it)."""
     run.rule(rid, "pop_local resets the local count when every bucket is empty (siblings steal without updating it; can_steal() reads it)", floor=1, template="T1")
-    b = need(run, rid, f, OLQ + "::pop_local")
+    b = unit(run, rid, f, OLQ + "::pop_local")
     if b is None:
         return
     cfg = Cfg(b)
@@ -557,13 +557,13 @@ def len_reset_rule(run, f, rid):
         for x in sorted(cfg.reachable(cfg.after(pb))):
             if b.blocks[x]["term"]["k"] == "switch":
                 si = switch_info(b, du, x)
-                if si["kind"] == "discr" and si["place"]["l"] == pt["dest"]["l"]:
+                if si["kind"] == "discr" and not si["place"]["proj"] and value_root(du, si["place"]["l"]) == value_root(du, pt["dest"]["l"]):
                     if si["arms"].get("Some") is not None:
                         arms.append(si["arms"]["Some"])
                     break
-    # every path entry -> return that avoids all Some arms must pass a store(0)
-    r = cfg.reachable({0}, avoid=set(arms) | {x for (x, _t) in stores})
-    if pops and arms and not (set(cfg.returns) & r):
+    # every feasible path entry -> return that avoids all Some arms must pass a store(0)
+    esc = PathWalker(b).escapes(0, set(arms) | {x for (x, _t) in stores}) if pops and arms else [None]
+    if pops and arms and not esc:
         run.ok(rid, "pop_local/reset", "None path passes len.store(0)")
     else:
         run.fail(rid, "pop_local/reset", b.loc(), "pop_local can report an empty local queue without resetting a stale count: can_steal() then stays false and sibling work is never taken")
